@@ -281,6 +281,46 @@ func LeanSource() string {
 		fmt.Fprintf(&b, "registry%d", k)
 	}
 	b.WriteString("]\n\ndef registry : Registry := registryChunks.flatten\n\n")
+	// the tables `mkIfaceTable` / `mkEnumTable` compute, as literals (Lean proves them equal)
+	type ent struct {
+		k   string
+		ids []uint32
+	}
+	var it, et []ent
+	add := func(t *[]ent, k string, id uint32) {
+		for i := range *t {
+			if (*t)[i].k == k {
+				(*t)[i].ids = append((*t)[i].ids, id)
+				return
+			}
+		}
+		*t = append(*t, ent{k, []uint32{id}})
+	}
+	for _, c := range all {
+		for _, nm := range c.Ifaces {
+			add(&it, nm, c.ID)
+		}
+		if c.Kind == "enum" {
+			add(&et, c.Name, c.ID)
+		}
+	}
+	emit := func(name string, t []ent) {
+		fmt.Fprintf(&b, "def %s : List (String × List Nat) := [\n", name)
+		for i, e := range t {
+			var ids []string
+			for _, id := range e.ids {
+				ids = append(ids, fmt.Sprintf("0x%08x", id))
+			}
+			sep := ","
+			if i == len(t)-1 {
+				sep = ""
+			}
+			fmt.Fprintf(&b, "  (%q, [%s])%s\n", e.k, strings.Join(ids, ", "), sep)
+		}
+		b.WriteString("]\n\n")
+	}
+	emit("ifaceTableLit", it)
+	emit("enumTableLit", et)
 	fmt.Fprintf(&b, "def registryChunkCount : Nat := %d\n\nend Mtv.Gen\n", n)
 	return b.String()
 }
